@@ -1103,7 +1103,8 @@ impl Stdfs {
         // Doesn't error out if it exists
         if !Stdfs::exists(&path) {
             fs::create_dir_all(&path)?;
-        } else if !Stdfs::is_dir(&path) {
+        } else if !path.is_dir() {
+            // an existing link to a directory is fine just as for mkdir_m
             return Err(PathError::IsNotDir(path).into());
         }
 
